@@ -98,8 +98,8 @@ def main():
                 prev = old.get("checks", {})
                 prev.update(meta["checks"])
                 meta["checks"] = prev
-                for k in ("needs", "breaks"):
-                    if k in old:
+                for k in ("needs", "breaks", "suite_with_change"):
+                    if k in old and k not in meta:
                         meta[k] = old[k]
             meta["ran"] = [
                 "git apply patch.diff in a scratch worktree of /repo HEAD",
